@@ -516,8 +516,11 @@ class Translator:
             if e[0] == 'macro' and self.is_panic_macro(e):
                 return V(('panic',), NEVER, True)
             if e[0] == 'macro' and e[1][-1] == 'assert':
-                parts = split_commas(e[2].ch)
-                cast = tr_parse.P(list(parts[0])).whole_expr()
+                first = []
+                for tk in e[2].ch:
+                    if is_p(tk, ','): break
+                    first.append(tk)
+                cast = tr_parse.P(first).whole_expr()
                 # assert!(c, …)  ==  if !c { panic!(…) }
                 ife = ('if', ('unary', '!', ('paren', cast)), ('block', [('expr', ('macro', ['panic'], e[2]), True, [])], None, False), None)
                 stmts = stmts[:i] + [('expr', ife, False, [])] + rest
@@ -731,6 +734,10 @@ class Translator:
             b = self.block(e[3], env, tailpos) if e[3][0] == 'block' else self.finalize_expr(e[3], env, tailpos)
             terms, out, ty = self.join([a, b])
             return self.ite(cond, terms, ty, out)
+        if k == 'iflet':
+            if e[4] is None: raise Unsupported('`if let` without `else` used as a value')
+            els = e[4] if e[4][0] == 'block' else ('block', [], e[4], False)
+            return self.match(('match', e[2], [(e[1], None, e[3]), (('pwild',), None, els)]), env, seq, tailpos)
         if k == 'match': return self.match(e, env, seq, tailpos)
         if k == 'call': return self.call(e, env, seq)
         if k == 'mcall': return self.mcall(e, env, seq)
